@@ -429,16 +429,6 @@ Definition convert_package (bd : bundle) (pkg : str) : outcome (list dfile) :=
   | fs => cv_files (pkg_exports camel bd) fs
   end.
 
-(* the symbols of the hand-written .proto files of a package (linked together with it) *)
-Definition pfile_symbols (p : pfile) : list str :=
-  map (qual (pfile_pkg p)) (pf_msgs p ++ pf_enums p ++ pf_values p).
-
-Definition pkg_pfile_symbols (bd : bundle) (pkg : str) : list str :=
-  flat_map (fun f => match f with
-                     | BP p => if str_eqb (pfile_pkg p) pkg then pfile_symbols p else []
-                     | BJ _ => []
-                     end) bd.
-
 (* every symbol the files linked for a package define; the sub-package files carry their own
    package name (<pkg>.service, <pkg>.topic) *)
 Definition package_symbols (bd : bundle) (pkg : str) (fs : list dfile) : list str :=
